@@ -122,7 +122,7 @@ def collide_templates(rng):
     # (1) `/` division vs `//` line comments; state after `a` has the merged lookaheads {X, Div}
     g = (f"S: A X | C A Div Y;\nA: Ta;\nLayout: LayoutItem*;\nLayoutItem: WS | CommentLine;\nterminals\n"
          f"Ta: '{a}';\nX: '{x}';\nY: '{y}';\nC: '{cc}';\nDiv: '/';\nWS: /\\s+/;\nCommentLine: /\\/\\/.*/;\n")
-    out.append((g, [[a, x], [cc, a, "/", y], [a, "/", y], [cc, a, x]], ["", " ", "//c\n", " // c\n", "\n", "  "], ("0", "1")))
+    out.append((g, [[a, x], [cc, a, "/", y], [a, "/", y], [cc, a, x]], ["", " ", "//c\n", " // c\n", "\n", "  ", "//ü\n", " // 中文 €\n", "//é\n//ö\n"], ("0", "1")))
     # (2) `#` token vs `##` layout word
     g = (f"S: A X | C A D;\nA: Ta;\nLayout: L;\nterminals\nTa: '{a}';\nX: '{x}';\nC: '{cc}';\nD: '#';\nL: '##';\n")
     out.append((g, [[a, x], [cc, a, "#"], [a, "#"], [cc, a, x]], ["", "##", "#", "####"], ("0", "1")))
@@ -143,7 +143,7 @@ def collide_templates(rng):
          f"Comment: '/*' Corncs '*/';\nCorncs: Cornc*;\nCornc: Comment | NotComment | WS;\nterminals\n"
          f"Ta: '{a}';\nTb: '{x}';\nWS: /\\s+/;\nCommentStart: '/*';\nCommentEnd: '*/';\n"
          f"NotComment: /((\\*[^\\/])|[^\\s*\\/]|\\/[^\\*])+/;\n")
-    out.append((g, [[a, x], [a]], ["", " ", "/* c */", "/* c", " /* a /* b */", "/**/ "], ("0", "1")))
+    out.append((g, [[a, x], [a]], ["", " ", "/* c */", "/* c", " /* a /* b */", "/**/ ", "/* ü€ */", " /* ä /* 中 */ é */"], ("0", "1")))
     return out
 
 
